@@ -99,6 +99,9 @@ def units(tier):
         for d1 in names:
             for o, _ in observers():
                 us.append({"chains": [[d1, d2] for d2 in names], "obs": o, "L": b["L2"], "alpha": 5, "starts": [0, 3] if tier == "quick" else [0, 1, 3]})
+    from .. import scale
+    for n in scale.sizes(tier):
+        us.append({"kind": "scale", "sizes": [n]})
     if b["depth"] >= 3:
         for d1 in small:
             for d2 in small:
@@ -143,8 +146,72 @@ def check(t, d, data, start, tsig):
 _STR = {}
 
 
+def scale_terms(n):
+    """regions holding n payload bytes (the size axis of mc/scale.py): -> [(name, term, data)]; observers report the inner greedy
+    value and absolute positions before, after and behind the region"""
+    from .. import scale
+    S = lambda *ms: ["Struct", [list(m) for m in ms]]
+    obs = S(("t0", ["Tell"]), ("g", ["GreedyBytes"]), ("t1", ["Tell"]))
+    tail = b"\x07tail"
+    after = lambda x: S(("r", x), ("at", ["Tell"]), ("b", BYTE), ("rest", ["GreedyBytes"]))
+    nz = scale.payload(n, "nozero")
+    varint = R.leb128(n)
+    even = nz[:n - n % 2]
+    mult3 = bytes(b if b != 0x45 else 0x46 for b in nz[:n - n % 3])      # no 'E': the 3-byte terminator cannot occur
+    out = [
+        ("NT", after(["NullTerminated", obs, b"\x00", False, True, True]), nz + b"\x00" + tail),
+        ("NTi", after(["NullTerminated", obs, b"\x00", True, True, True]), nz + b"\x00" + tail),
+        ("NTnc", after(["NullTerminated", obs, b"\x00", False, False, True]), nz + b"\x00" + tail),
+        ("NTnr-eof", S(("r", ["NullTerminated", obs, b"\x00", False, True, False]), ("at", ["Tell"])), nz),
+        ("NT2", after(["NullTerminated", obs, b"\x00\x00", False, True, True]), even + b"\x00\x00" + tail),
+        ("NT3", after(["NullTerminated", obs, b"END", False, True, True]), mult3 + b"END" + tail),
+        ("CString", after(["CString", "ascii"]), scale.payload(n, "text") + b"\x00" + tail),
+        ("CString16", after(["CString", "utf_16_le"]), b"".join(bytes([c, 0]) for c in scale.payload(n // 2, "text")) + b"\x00\x00" + tail),
+        ("PV", after(["Prefixed", ["VarInt"], obs, False]), varint + nz + tail),
+        ("P32>NT", after(["Prefixed", G.I(4, False, "l"), S(("in", ["NullTerminated", obs, b"\x00", False, True, True]), ("at", ["Tell"]), ("rest", ["GreedyBytes"])), False]),
+         (n + 4).to_bytes(4, "little") + nz + b"\x00abc" + tail),
+        ("NT>PV", after(["NullTerminated", S(("in", ["Prefixed", ["VarInt"], obs, False]), ("at", ["Tell"]), ("rest", ["GreedyBytes"])), b"\x00", False, True, True]),
+         bytes(b | 0x80 if i < len(varint) - 1 else b for i, b in enumerate(varint)) + nz + b"xy\x00" + tail if 0 not in varint else None),
+        ("F>NS", after(["FixedSized", n + 16, ["NullStripped", obs, b"\x00"]]), nz + bytes(16) + tail),
+        ("OE", S(("r", ["OffsettedEnd", -5, obs]), ("at", ["Tell"]), ("rest", ["GreedyBytes"])), nz + tail),
+        ("PX", after(["FixedSized", n, ["ProcessXor", 0x20, obs]]), nz + tail),
+        ("PascalString", after(["PascalString", ["VarInt"], "ascii"]), varint + scale.payload(n, "text") + tail),
+        ("RawCopy", after(["FixedSized", n, ["RawCopy", ["GreedyBytes"]]]), nz + tail),
+    ]
+    return [(a, b, c) for a, b, c in out if c is not None]
+
+
+def run_scale(unit, tier, r):
+    from .. import scale
+    for n in unit["sizes"]:
+        for name, t, data in scale_terms(n):
+            d = T.mk(t)
+            tsig = "scale:%s" % name
+            for start in (0, 3):
+                r.states += 1
+                want, vs = check(t, d, data, start, tsig)
+                if want is None:
+                    continue
+                r.case(nontrivial=want[0] == "ok" and not vs, outcome=want[0], transitions=1, validated=1)
+                for v in vs:
+                    v["case"]["scale"] = [name, n]
+                    v["case"]["data"] = {"$payload-size": n}
+                    r.violation(v["sig"], v["case"], v["detail"][:600])
+                # cut one byte short: both must reject
+                r.states += 1
+                want, vs = check(t, d, data[:n // 2], start, tsig)
+                for v in vs:
+                    v["case"]["scale"] = [name, n, "half"]
+                    v["case"]["data"] = {"$payload-size": n}
+                    r.violation(v["sig"], v["case"], v["detail"][:600])
+    r.sample({"scale_sizes": unit["sizes"], "regions": [x[0] for x in scale_terms(64)]})
+
+
 def run_unit(unit, tier):
     r = UnitResult()
+    if unit.get("kind") == "scale":
+        run_scale(unit, tier, r)
+        return r
     chains = unit.get("chains") or [unit["chain"]]
     obs_list = [o for o, _ in observers()] if unit.get("obsall") else [unit["obs"]]
     key = (unit["alpha"], unit["L"])
@@ -170,5 +237,9 @@ def run_unit(unit, tier):
 
 
 def replay(case):
+    if "scale" in case:
+        r = UnitResult()
+        run_scale({"sizes": [case["scale"][1]]}, "quick", r)
+        return [v for v in r.violations if v["case"].get("scale") == case["scale"]]
     t = case["term"]
     return check(t, T.mk(t), case["data"], case["start"], T.sig_of(t, 4))[1]
